@@ -2,7 +2,8 @@ SPEC = {
     "id": "C03",
     "level": "fault_enumeration",
     "level_text": "For each generated transmission (5-9 page transmissions with headers, rows, X/26, X/27/0, X/28/0, 8/30, time filling "
-                  "headers; serial or parallel multiplex; erase and no-erase retransmissions) every packet is hit, one fault per run into a "
+                  "headers; serial or parallel multiplex; erase and no-erase retransmissions; every third one with a page with a hexadecimal "
+                  "number that is received while its function is unknown, declared a normal page by a MIP, and received again) every packet is hit, one fault per run into a "
                   "fresh decoder, by: every single-bit fault of every Hamming 8/4 byte and 24/18 triplet (exhaustive), every single-bit fault "
                   "of every parity protected text byte (exhaustive), all 28 double faults of every address/control byte, sampled double "
                   "faults in header control bytes and data bytes/triplets, sampled bursts (<= 2 errors per byte) and the loss of the packet. "
@@ -25,13 +26,13 @@ SPEC = {
     ],
     "jobs": [
         {"name": "plain", "harness": "c02_ttx_faithful", "srcs": ["harness/c02_ttx_faithful.c"], "flavour": "plain",
-         "mode": "faults", "cases": {"quick": 6 * 128, "thorough": 200 * 128}, "budget": 300},
+         "mode": "faults", "cases": {"quick": 12 * 128, "thorough": 200 * 128}, "budget": 300},
         {"name": "asan", "harness": "c02_ttx_faithful", "srcs": ["harness/c02_ttx_faithful.c"], "flavour": "asan",
          "mode": "faults", "cases": {"quick": 128, "thorough": 40 * 128}, "budget": 600, "tiers": ("thorough",)},
     ],
     "min_distinct": 30,
     "min_counters": {"faults_single_hamming": 20000, "faults_single_parity": 40000, "faults_double": 5000, "faults_burst": 500,
                      "faults_dropped_packet": 200, "headers_uncorrectable": 50, "packets_header": 20, "packets_row": 100,
-                     "packets_x26": 5, "packets_x27": 5, "packets_x28": 2, "packets_830": 2, "row-kept-earlier-content": 500,
+                     "packets_x26": 5, "packets_x27": 5, "packets_x28": 2, "packets_830": 2, "packets_mip": 2, "transmissions_with_hex_page_and_mip": 2, "row-kept-earlier-content": 500,
                      "row-stayed-blank": 500},
 }
